@@ -1,4 +1,5 @@
 ENTRY = dict(
+    gen=["parrots"],
     runner="C10", pkg="./cmd/c10", corr=["Corr.C10Corr"], n=dict(quick=1350, thorough=16000), runner_timeout=2400,
     rule="spec classes: the 38 predefined parrots, reproducible randomized fingerprints (10 quick / 200 thorough), fingerprinted copies "
          "(Fingerprinter on the class's own ClientHello, re-applied as HelloCustom) of every parrot and of a rotating quarter of the randomized "
